@@ -151,10 +151,53 @@ def sifting(ctx, n, order, tts, reps=1, aged=False):
     H.finish()
 
 
+def autoref_views(ctx, n, target):
+    """the order as seen through dd.autoref (`vars`, `var_levels`, `level_of_var`,
+    `var_at_level`) after reorderings, with live Functions"""
+    rng = ctx.rng
+    s = ctx.session(f'autoref reorder n={n} target={target}')
+    A = 'a0'
+    s.op(A, 'new', {v: v for v in range(n)})
+    from .C12 import abuild, by_name
+    hs = [abuild(s, A, rng.getrandbits(1 << n) | 6, n) for _ in range(2)]
+    a = s.impl.amgr[A]
+    H = s.impl.handles[A]
+    before = {h: (by_name(a._bdd, H[h].node, n), H[h].node) for h in hs}
+    case = lambda: dict(stream=s.label, lines=list(s.lines))  # noqa: E731
+
+    def views(what):
+        lv = {x: a.level_of_var(x) for x in a.vars}
+        inv = {a.var_at_level(l): l for l in range(len(a.vars))}
+        if not (dict(a.vars) == lv == inv == dict(a.var_levels)):
+            ctx.violation('C07:views-disagree',
+                          f'{what}: vars={dict(a.vars)} level_of_var={lv} var_at_level={inv} '
+                          f'var_levels={dict(a.var_levels)}', case)
+            return False
+        for h, (t, node) in before.items():
+            if H[h].node != node or by_name(a._bdd, H[h].node, n) != t:
+                ctx.violation('C07:held-changed', f'{what}: live Function {h} changed', case)
+                return False
+        return True
+    s.op(A, 'reorder', {v: l for v, l in zip(range(n), target)})
+    ctx.case(('autoref-views', n, tuple(target)), True)
+    ctx.count('autoref-views')
+    ok = views('reorder(order)')
+    if ok and {vname(v): l for v, l in zip(range(n), target)} != dict(a.vars):
+        ctx.violation('C07:order', f'requested {target}, bdd.vars shows {dict(a.vars)}', case)
+    if ok:
+        s.op(A, 'reorder', None)
+        views('reorder()')
+    for h in hs:
+        s.op(A, 'drop', h)
+
+
 def run(ctx):
     q = ctx.quick
     rng = ctx.rng
     run_streams(ctx, q, rng)
+    for n in (2, 3, 4):
+        for target in (gen.orders(n) if not q or n < 4 else rng.sample(gen.orders(n), 6)):
+            autoref_views(ctx, n, target)
     # the same explicit reorderings while dynamic reordering is enabled
     DYN[0] = True
     try:
